@@ -1,6 +1,6 @@
 // C09 — if, for and set have their defined control-flow meaning.
 //
-// Bounded-exhaustive enumeration of four families of programs, each rendered on a fresh engine of
+// Bounded-exhaustive enumeration of six families of programs, each rendered on a fresh engine of
 // the real implementation and compared with a small reference interpreter transcribed from the
 // property statement:
 //
@@ -16,6 +16,9 @@
 //	   `do name = expr` form                                                 -> fam_d.go
 //	E  a first assignment to a new variable below every chain of enclosing constructs up to a
 //	   depth bound, read after every enclosing construct closes and by later iterations -> fam_e.go
+//	F  re-entrant loops: the same for node active several times at once (a template including
+//	   itself from its for body, a macro calling itself through _self, a function rendering the
+//	   template again), all seven counters printed before and after the inner activation -> fam_f.go
 package main
 
 import (
@@ -85,20 +88,24 @@ func main() {
 	vlib.Main(vlib.Spec{
 		ID:    "C09",
 		Level: "exploration",
-		Rule: "every program of four generated families inside the stated bounds is rendered on a fresh engine and compared with a reference interpreter " +
+		Rule: "every program of six generated families inside the stated bounds is rendered on a fresh engine and compared with a reference interpreter " +
 			"written from the property statement: (A) if/elseif/else chains over every value class as context value and as literal; (B) one for loop " +
 			"(value or key,value header, with/without else, top level / inside an outer loop / over a variable assigned by set) over every list, string " +
 			"and range of the bound, printing index, index0, revindex, revindex0, first, last, length, key and value at every position; (C) every statement " +
 			"tree over {set, if, if/else, if/elseif[/else], for, for/else} up to the size bound with a full state probe at the start of every body and after every " +
 			"statement; (D) every chain of assignments up to the length bound as `set` and as `do name = expr`; (E) a variable first assigned below every chain of " +
-			"taken if / else / elseif branches, loop bodies and for-else branches up to the depth bound, read after each enclosing construct and in later iterations. Non-trivial = A: the chain has at least two " +
+			"taken if / else / elseif branches, loop bodies and for-else branches up to the depth bound, read after each enclosing construct and in later iterations; " +
+				"(F) re-entrant loops: a loop body that reaches its own for node again (include of the same template, include ... only, recursive macro via _self, a registered function that renders the template again; directly or through a second identical template/macro) " +
+				"over per-level lists of every length with a depth guard and over every tree of nested lists of the bound, printing all seven counters, key and value before and after the inner activation, three renders per case on one engine. Non-trivial = A: the chain has at least two " +
 			"alternatives (elseif or else); B: the sequence has at least two elements, or is empty with an else branch; C: the reference execution enters a " +
-			"loop body or selects among at least two branches; D: a later assignment or print reads an earlier assignment; E: always (every read follows the assignment across a construct boundary)",
+			"loop body or selects among at least two branches; D: a later assignment or print reads an earlier assignment; E: always (every read follows the assignment across a construct boundary); " +
+				"F: a loop body is entered while an iteration of a loop of an outer level is still being rendered",
 		Assumptions: []string{
 			"bounds: see coverage.bounds; programs larger than the size bound, lists longer than the length bound and ranges outside the grid are not explored",
 			"not demanded (statement silent): loop.* and loop variables after endfor and inside a for-else branch; range() whose step sign contradicts end-start, one-argument range; " +
 				"undefined variables as conditions; maps as sequences (except the empty map, which has nothing to iterate); pointers and NaN as conditions; combining characters / invalid UTF-8 in strings",
 			"printing of integers and strings, the ~ operator on them, + on integers and the ?: used by the family-C probe are trusted (property C08)",
+			"family F trusts include ... with {...} [only], macro parameters, _self.macro(...) calls and function calls to hand the stated values to the next level (properties about includes/macros/functions); integer d + 1 and d < N (C08)",
 			"a `do name = expr` that the parser rejects is a don't-care; one that is accepted must assign like set",
 		},
 		QuickDeadline:    150,
@@ -108,6 +115,7 @@ func main() {
 			runB(t)
 			runD(t)
 			runE(t)
+			runF(t)
 			runC(t)
 		},
 		Extra: func(tier string, cov map[string]interface{}) {
@@ -124,6 +132,7 @@ func boundsDoc(tier string) map[string]interface{} {
 		"B": bBoundsDoc(th),
 		"C": cBoundsDoc(th),
 		"E": fmt.Sprintf("every chain of 1..%d enclosing constructs from {if (taken), if/else (else taken), if/elseif (elseif taken), for over 3 elements, for over nothing with else} around the first assignment of a new variable", eMaxDepth(th)),
+		"F": fBoundsDoc(th),
 		"D": fmt.Sprintf("assignment chains of length <= %d over %d assignment statements, set form and do form", dMaxLen(th), len(dAlphabet)),
 	}
 }
